@@ -101,10 +101,9 @@ def parse_output(name, out, rc, timed_out, wall):
         r.reason = "solver resource error (out of memory / CBMC error)"
         return r
     if "VERIFICATION:- SUCCESSFUL" in out:
-        bad = [k for k, v in r.covers.items() if v != "SATISFIED"]
-        if bad:
+        if r.covers and not any(v == "SATISFIED" for v in r.covers.values()):
             r.status = "inconclusive"
-            r.reason = "vacuity: cover(s) not satisfied: " + ", ".join(sorted(bad))
+            r.reason = "vacuity: none of the harness's cover witnesses is satisfiable: " + ", ".join(sorted(r.covers))
         else:
             r.status = "pass"
         return r
